@@ -124,10 +124,22 @@ func mixedGraphConfig(n int, kind func(i, j int) int) *cfg.Config {
 
 // mixedGraphConfigN: with sharedNames, tags are named like services (and parameters named like services
 // are referenced next to them), so that a dependency graph keyed by bare names would confuse them.
+// c07Names, when set, names the services (and the parameters named like them) instead of s0, s1, …: names built from few
+// letters and the separators `_`, `-`, `.` so that different (from, to) pairs concatenate to the same text (a + "_" + b_c =
+// a_b + "_" + c). Only written between the sequential generation steps of checkC07.
+var c07Names []string
+
+func c07Name(i int) string {
+	if i < len(c07Names) {
+		return c07Names[i]
+	}
+	return fmt.Sprintf("s%d", i)
+}
+
 func mixedGraphConfigN(n int, kind func(i, j int) int, sharedNames bool) *cfg.Config {
 	c := &cfg.Config{Meta: cfg.Meta{Pkg: cfg.P("gen"), Imports: []cfg.KS{{K: "pa", V: "fixt/pa"}}}}
 	for i := 0; i < n; i++ {
-		c.Services = append(c.Services, cfg.Service{Name: fmt.Sprintf("s%d", i), Constructor: cfg.P("pa.New")})
+		c.Services = append(c.Services, cfg.Service{Name: c07Name(i), Constructor: cfg.P("pa.New")})
 	}
 	hasTag := func(s *cfg.Service, t string) bool {
 		for _, x := range s.Tags {
@@ -139,7 +151,7 @@ func mixedGraphConfigN(n int, kind func(i, j int) int, sharedNames bool) *cfg.Co
 	}
 	if sharedNames {
 		for i := 0; i < n; i++ {
-			c.Params = append(c.Params, cfg.KV{K: fmt.Sprintf("s%d", i), V: cfg.Int(int64(i))})
+			c.Params = append(c.Params, cfg.KV{K: c07Name(i), V: cfg.Int(int64(i))})
 		}
 	}
 	for i := 0; i < n; i++ {
@@ -166,7 +178,7 @@ func mixedGraphConfigN(n int, kind func(i, j int) int, sharedNames bool) *cfg.Co
 			case ckDecorator:
 				t := fmt.Sprintf("d%d-%d", i, j)
 				if sharedNames {
-					t = fmt.Sprintf("s%d", (i+j+1)%n) // a tag named like some service
+					t = c07Name((i + j + 1) % n) // a tag named like some service
 					if t == sj.Name && kind(i, j) == ckTagged {
 						t = fmt.Sprintf("d%d-%d", i, j)
 					}
@@ -196,14 +208,14 @@ func mixedGraphConfigN(n int, kind func(i, j int) int, sharedNames bool) *cfg.Co
 			if si := &c.Services[i]; len(si.Args) > 0 && i%2 == 0 {
 				var sb strings.Builder
 				for k := 0; k < 3+i%3+len(si.Args); k++ {
-					sb.WriteString(fmt.Sprintf("%%s%d%%:", k%n))
+					sb.WriteString("%" + c07Name(k%n) + "%:")
 				}
 				si.Args = append(si.Args, cfg.Str(sb.String()))
 			}
 		}
 		for d := range c.Decorators {
 			if d%2 == 1 {
-				c.Decorators[d].Args = append(c.Decorators[d].Args, cfg.Str(fmt.Sprintf("%%s0%%/%%s%d%%/%%s0%%/%%s%d%%", (d+1)%n, d%n)))
+				c.Decorators[d].Args = append(c.Decorators[d].Args, cfg.Str("%"+c07Name(0)+"%/%"+c07Name((d+1)%n)+"%/%"+c07Name(0)+"%/%"+c07Name(d%n)+"%"))
 			}
 		}
 	}
@@ -240,7 +252,7 @@ func addInertParts(r *rand.Rand, c *cfg.Config) {
 }
 
 func checkC07(c *Ctx) error {
-	c.Rule = "(a) all 512 digraphs on 3 parameters incl. self-loops (always); (b) all 512 @-digraphs on 3 services (always); (c) all 4^9 = 262 144 graphs on 3 services where every ordered pair is one of {none, @service, via !tagged, via decorator-on-tag} (thorough: all; quick: seeded sample of 6 000); a third of (c) and (d) also carry inert look-alikes: decorators on `*` and on tags nobody carries, with @service/!tagged arguments; (c2) a seeded sample of the 5^9 graphs with a fifth kind (decorator whose argument is `!tagged t`, t requested by nothing else); (d) seeded sparse graphs on <=12 parameters and services with overlapping cycles, all edge kinds; a third of them also refer to services/parameters that are not declared and are built with both --ignore-missing-* flags. Each configuration runs through the real binary; the 'Circular dependencies' step must fail iff the reference relation has a cycle (Tarjan SCC), every reported line must be a closed walk of the relation, every element on a cycle must occur in a reported line. Accepted samples are compiled and executed: CircularDeps()==nil and every GetParam returns. distinct = distinct configuration; non-trivial = the relation has at least one edge"
+	c.Rule = "(a) all 512 digraphs on 3 parameters incl. self-loops (always); (b) all 512 @-digraphs on 3 services (always); (c) all 4^9 = 262 144 graphs on 3 services where every ordered pair is one of {none, @service, via !tagged, via decorator-on-tag} (thorough: all; quick: seeded sample of 6 000); a third of (c) and (d) also carry inert look-alikes: decorators on `*` and on tags nobody carries, with @service/!tagged arguments; (c2) a seeded sample of the 5^9 graphs with a fifth kind (decorator whose argument is `!tagged t`, t requested by nothing else); every fourth random graph names its nodes a, a_b, b, b_c, … so that different (from, to) pairs concatenate to the same text; (d) seeded sparse graphs on <=12 parameters and services with overlapping cycles, all edge kinds; a third of them also refer to services/parameters that are not declared and are built with both --ignore-missing-* flags. Each configuration runs through the real binary; the 'Circular dependencies' step must fail iff the reference relation has a cycle (Tarjan SCC), every reported line must be a closed walk of the relation, every element on a cycle must occur in a reported line. Accepted samples are compiled and executed: CircularDeps()==nil and every GetParam returns. distinct = distinct configuration; non-trivial = the relation has at least one edge"
 	c.Assumptions = []string{"reference relation engine/ref.BuildGraph (statement of C07)", "graphs whose largest strongly connected component exceeds 6 nodes are skipped (the statement's cost proviso) and counted"}
 	w := c.W
 	var jobs []*cfg.Config
@@ -324,6 +336,37 @@ func checkC07(c *Ctx) error {
 	c.Set("mixed_kind_graphs_run", len(picks))
 	c.Set("mixed_kind_graph_space", total)
 	c.Set("mixed_kind_exhaustive", c.Thorough())
+	// (c3) pairs of edges whose end points concatenate to the same text (a -> b_c and a_b -> c, with `_`, `-`, `.`), a cycle
+	// through one of them, as services and as parameters
+	for _, sep := range []string{"_", "-", "."} {
+		X, XP, PV, V := "a", "a"+sep+"b", "b"+sep+"c", "c"
+		for variant := 0; variant < 4; variant++ {
+			conf := &cfg.Config{Meta: cfg.Meta{Pkg: cfg.P("gen"), Imports: []cfg.KS{{K: "pa", V: "fixt/pa"}}}}
+			// edges X->PV and XP->V; the cycle goes through the second (variants 0, 2) or the first (1, 3) of them
+			edges := map[string][]string{X: {PV}, XP: {V}}
+			if variant%2 == 0 {
+				edges[V] = []string{XP}
+			} else {
+				edges[PV] = []string{X}
+			}
+			for _, n := range []string{X, XP, PV, V} {
+				if variant < 2 {
+					sv := cfg.Service{Name: n, Constructor: cfg.P("pa.New")}
+					for _, t := range edges[n] {
+						sv.Args = append(sv.Args, cfg.Str("@"+t))
+					}
+					conf.Services = append(conf.Services, sv)
+				} else {
+					v := "v"
+					for _, t := range edges[n] {
+						v += "%" + t + "%"
+					}
+					conf.Params = append(conf.Params, cfg.KV{K: n, V: cfg.Str(v)})
+				}
+			}
+			jobs = append(jobs, conf)
+		}
+	}
 	// (d) random sparse graphs
 	nr := c.Pick(600, 8000)
 	skipped := 0
@@ -331,23 +374,37 @@ func checkC07(c *Ctx) error {
 		r := rand.New(rand.NewSource(c.Seed*7 + int64(k)))
 		n := 4 + r.Intn(9)
 		p := 0.05 + r.Float64()*0.15
+		collide := []string{"a", "a_b", "b", "b_c", "c", "a_b_c", "c_d", "d", "a-b", "b-c", "a.b", "b.c"}
+		if k%4 == 3 {
+			c07Names = collide
+			if n > len(collide) {
+				n = len(collide)
+			}
+			p = 0.12 + r.Float64()*0.15
+		}
 		conf := mixedGraphConfigN(n, func(i, j int) int {
 			if r.Float64() < p {
 				return 1 + r.Intn(4)
 			}
 			return ckNone
 		}, k%2 == 0)
+		c07Names = nil
 		np := 3 + r.Intn(8)
+		pname := func(i int) string { return fmt.Sprintf("q%d", i) }
+		if k%4 == 3 {
+			np = 4 + r.Intn(len(collide)-3)
+			pname = func(i int) string { return "P" + collide[i] }
+		}
 		for i := 0; i < np; i++ {
 			v := "v"
 			for j := 0; j < np; j++ {
 				if r.Float64() < p {
 					for k := 0; k <= r.Intn(4); k++ {
-						v += fmt.Sprintf("-%%q%d%%", j)
+						v += "-%" + pname(j) + "%"
 					}
 				}
 			}
-			conf.Params = append(conf.Params, cfg.KV{K: fmt.Sprintf("q%d", i), V: cfg.Str(v)})
+			conf.Params = append(conf.Params, cfg.KV{K: pname(i), V: cfg.Str(v)})
 		}
 		if k%3 == 2 {
 			addInertParts(r, conf)
@@ -442,7 +499,7 @@ func checkC07(c *Ctx) error {
 	}
 	for _, u := range units {
 		if !u.Compiled {
-			c.Side("C01", "does-not-compile:"+errClass(u.CompileErr), fmt.Sprintf("unit %s: %s", u.ID, firstLines(u.CompileErr, 6)), unitFiles(u))
+			c.Violate("does-not-compile:"+errClass(u.CompileErr), fmt.Sprintf("unit %s: %s", u.ID, firstLines(u.CompileErr, 6)), unitFiles(u))
 			continue
 		}
 		for i, r := range u.Results {
